@@ -1514,6 +1514,9 @@ func (w *W) opRead() string {
 	if h.M.K != model.KSub {
 		return ""
 	}
+	if w.F.Prop == "C12" && w.Sep == "." && t.Chance(1, 8, "literal-key-probe") {
+		w.literalKeyProbe(h)
+	}
 	root := w.rootOf(h)
 	var before uint64
 	if root != nil {
@@ -1546,6 +1549,49 @@ func (w *W) opRead() string {
 		}
 	}
 	return "Read"
+}
+
+// literalKeyProbe: a key that holds the separator as part of its name (written by a call without
+// the PathSep option) lives beside the settings addressed by the same string as a path. Reads with
+// the separator address the path, whatever literal key exists; the key is removed again, so the
+// tree is as before.
+func (w *W) literalKeyProbe(h *Handle) {
+	if h.M.K != model.KSub || len(h.M.A) > 0 || h.M.Sticky&2 != 0 {
+		return
+	}
+	t := w.R.T
+	x, y := Names[t.Choose(len(Names), "literal-x")], Names[t.Choose(len(Names), "literal-y")]
+	literal := x + "." + y
+	var err error
+	w.R.MustComplete("SetInt", func() { err = h.C.SetInt(literal, -1, 7777) })
+	if err != nil {
+		w.fail("op-result", "SetInt", nil, "SetInt(%q) without a path separator failed: %v", literal, err)
+		return
+	}
+	h.M.Sticky |= 1 // the node has held a named entry now (kind discipline, Appendix A)
+	w.R.Probe("read: a literal key holding the separator exists beside the path of the same spelling")
+	segs := []model.Seg{model.N(x), model.N(y)}
+	_, st := h.M.Lookup(segs)
+	var got int64
+	var gerr error
+	var has bool
+	var herr error
+	w.R.MustComplete("Int", func() { got, gerr = h.C.Int(literal, -1, w.Opts...) })
+	w.R.MustComplete("Has", func() { has, herr = h.C.Has(literal, -1, w.Opts...) })
+	w.R.Tracef("h%d: literal key %q = 7777 set without PathSep; with PathSep Int = %d, %v; Has = %v, %v (model: %s)", h.ID, literal, got, gerr, has, herr, st)
+	if gerr == nil && got == 7777 {
+		w.fail("read", "Int", nil, "Int(%q) with PathSep(\".\") returned the value of the literal key %q instead of addressing the path %s.%s (reference tree: %s)", literal, literal, x, y, st)
+	}
+	if st == model.Found || st == model.Absent {
+		if herr == nil && has != (st == model.Found) {
+			w.fail("read", "Has", nil, "Has(%q) with PathSep(\".\") = %v while the path %s.%s is %s in the reference tree (a literal key %q exists beside it)", literal, has, x, y, st, literal)
+		}
+	}
+	var removed bool
+	w.R.MustComplete("Remove", func() { removed, err = h.C.Remove(literal, -1) })
+	if err != nil || !removed {
+		w.fail("op-result", "Remove", nil, "Remove(%q) without a path separator = %v, %v", literal, removed, err)
+	}
 }
 
 func (w *W) readAddr(h *Handle) {
